@@ -58,13 +58,14 @@ def zsort(t):
 
 
 def realval(v, text=None):
+    """a floating literal denotes the double nearest to its decimal text (in code and in clauses alike)"""
     if text is not None:
         try:
-            return z3.RealVal(str(fractions.Fraction(text)))
+            return z3.RealVal(str(fractions.Fraction(float(text))))
         except Exception:
             pass
     if isinstance(v, float):
-        return z3.RealVal(str(fractions.Fraction(repr(v))))
+        return z3.RealVal(str(fractions.Fraction(v)))
     return z3.RealVal(v)
 
 
